@@ -352,6 +352,10 @@ pub fn ops_depth1(b: &Base, stride: usize, all_truncations: bool) -> Vec<Op> {
                 ops.push(Op::Extend { t, extra, fill });
             }
         }
+        // lengths that coincide with the valid one when narrowed to 8 or 16 bits (and their neighbours)
+        for extra in [255usize, 256, 65535, 65536, 65537, 131072] {
+            ops.push(Op::Extend { t, extra, fill: 0 });
+        }
     }
     ops.push(Op::Pair(Box::new(Op::Extend { t: Tgt::Sig, extra: 1, fill: 0 }), Box::new(Op::Extend { t: Tgt::Pk, extra: 1, fill: 0 })));
     // splices from donors with the same layout (donors 0,1,2) and from other levels of this signature
